@@ -2,23 +2,23 @@
 //
 // One op line is a whole HISTORY over a small loader tree:
 //
-//   C12 hist (tree NODE*) (steps STEP*)
+//	C12 hist (tree NODE*) (steps STEP*)
 //
-//   NODE  ::= (st)             node 0 only: the static loader itself (px.StaticLoader()); it may be asked (has, get, disc) but
-//                              no load / def / add may address it; the only core type name a line may use is Integer
-//           | (p P)            px.NewParentedLoader(parent), parent = node P, or the static loader when P = -1
-//           | (f P)            the loader of ctx_P.Fork()  (Context.Fork creates a parented child loader); P >= 0
-//   NAME  ::= (n NS xNAME A)   px.NewTypedName2(NS, NAME, authority); A = r (runtime authority) | o (another authority)
-//   VAL   ::= (t N)            the type Integer[N,N]     (a fresh object every time: equality goes through Equals)
-//           | (s N)            the String value "N"      (a non-Type that implements Equality)
-//           | (al xNAME N)     the alias type NAME = Integer[N,N]
-//   STEP  ::= (load L NAME)    px.Load(ctx_L, NAME)                 → found VAL | notfound
-//           | (def L NAME VAL) loader_L.SetEntry(NAME, entry(VAL))  → ok | reported CODE | fault
-//           | (add L xNAME N)  px.AddTypes(ctx_L, alias NAME=Integer[N,N]) → ok | reported CODE | fault
-//           | (has L NAME)     loader_L.HasEntry(NAME)              → t | f
-//           | (get L NAME)     loader_L.GetEntry(NAME)              → found VAL | placeholder | absent
-//           | (disc L P)       loader_L.Discover(ctx_L, pred P ∧ key used in this line), P = all | qual | type
-//                                                                   → [key*]   (map keys, hex)
+//	NODE  ::= (st)             node 0 only: the static loader itself (px.StaticLoader()); it may be asked (has, get, disc) but
+//	                           no load / def / add may address it; the only core type name a line may use is Integer
+//	        | (p P)            px.NewParentedLoader(parent), parent = node P, or the static loader when P = -1
+//	        | (f P)            the loader of ctx_P.Fork()  (Context.Fork creates a parented child loader); P >= 0
+//	NAME  ::= (n NS xNAME A)   px.NewTypedName2(NS, NAME, authority); A = r (runtime authority) | o (another authority)
+//	VAL   ::= (t N)            the type Integer[N,N]     (a fresh object every time: equality goes through Equals)
+//	        | (s N)            the String value "N"      (a non-Type that implements Equality)
+//	        | (al xNAME N)     the alias type NAME = Integer[N,N]
+//	STEP  ::= (load L NAME)    px.Load(ctx_L, NAME)                 → found VAL | notfound
+//	        | (def L NAME VAL) loader_L.SetEntry(NAME, entry(VAL))  → ok | reported CODE | fault
+//	        | (add L xNAME N)  px.AddTypes(ctx_L, alias NAME=Integer[N,N]) → ok | reported CODE | fault
+//	        | (has L NAME)     loader_L.HasEntry(NAME)              → t | f
+//	        | (get L NAME)     loader_L.GetEntry(NAME)              → found VAL | placeholder | absent
+//	        | (disc L P)       loader_L.Discover(ctx_L, pred P ∧ key used in this line), P = all | qual | type
+//	                                                                → [key*]   (map keys, hex)
 //
 // Output: the step answers joined by " ; ", then " | " and the final own contents of every loader
 // (`i:{key=VAL key=- …}`, keys sorted, `-` = cached-miss placeholder).
